@@ -77,8 +77,9 @@ NameBytes == [i \in 1..Len(NameOrder) |->
     [] NameOrder[i] = "m" -> <<109>> [] NameOrder[i] = "p" -> <<112>> [] NameOrder[i] = "r" -> <<114>>
     [] NameOrder[i] = "x" -> <<120>> [] NameOrder[i] = "y" -> <<121>>]
 Undef == "zz"                                   \* the name faults are redirected to; never defined
+UndefQ == "q0"                                  \* rendered as the QUOTED numeral "0" (%"0", @"0"): a name, never an ID, never defined
 IdNames == <<"@0", "@1", "@2", "@3">>           \* identifiers given to unnamed globals, by textual position
-Names == {NameOrder[i] : i \in 1..Len(NameOrder)} \cup {IdNames[i] : i \in 1..Len(IdNames)} \cup {Undef}
+Names == {NameOrder[i] : i \in 1..Len(NameOrder)} \cup {IdNames[i] : i \in 1..Len(IdNames)} \cup {Undef, UndefQ}
 Rank(n) == CHOOSE i \in 1..Len(NameOrder) : NameOrder[i] = n
 
 ----------------------------------------------------------------------------
@@ -100,7 +101,8 @@ Patterns == <<
   \* 4: same local names in two functions, calls in both directions, unnamed function
   << Def("f", <<>>, << Loc("entry", "block", <<>>), Loc("x", "inst", <<Ref("g.operand", "g")>>), Loc("", "void", <<Ref("g.callee", "g")>>) >>),
      Def("g", <<>>, << Loc("entry", "block", <<>>), Loc("x", "inst", <<Ref("g.operand", "f")>>), Loc("", "void", <<Ref("g.callee", "f")>>) >>),
-     Def("", <<>>, << Loc("entry", "block", <<>>), Loc("", "void", <<Ref("g.callee", "@0")>>) >>) >>,
+     Def("", <<>>, << Loc("entry", "block", <<>>), Loc("", "inst", <<>>), Loc("x", "inst", <<>>), Loc("y", "inst", <<Ref("l.operand", "x")>>),
+                      Loc("", "void", <<Ref("g.callee", "@0")>>) >>) >>,
   \* 5: blockaddress of a block in another, later function; and from a global initialiser
   << Global("g", <<RefX("l.baddr", "h", "bb")>>),
      Def("f", <<>>, << Loc("entry", "block", <<>>), Loc("x", "inst", <<RefX("l.baddr", "h", "bb")>>) >>),
@@ -146,10 +148,13 @@ Patterns == <<
      Def("f", <<>>, << Loc("entry", "block", <<Ref("l.target", "bb")>>), Loc("bb", "block", <<>>) >>), UloBA("f", "bb") >>,
   \* 19: a value-producing terminator (invoke) whose result is used, with its landing pad
   << Decl("h", <<Ref("ty.sig", "a")>>), TStruct("a", <<>>), Decl("p", <<>>),
-     Def("f", <<Ref("g.personality", "p")>>, << Loc("c", "param", <<>>), Loc("entry", "block", <<>>), Loc("g", "inst", <<Ref("l.operand", "c")>>),
+     Def("f", <<Ref("g.personality", "p")>>, << Loc("c", "param", <<>>), Loc("b", "param", <<>>), Loc("entry", "block", <<>>), Loc("g", "inst", <<Ref("l.operand", "c")>>),
         Loc("x", "invoke", <<Ref("g.callee", "h"), Ref("l.target", "bb"), Ref("l.target", "r")>>),
         Loc("bb", "block", <<>>), Loc("y", "inst", <<Ref("l.operand", "x")>>),
         Loc("r", "block", <<>>), Loc("m", "lpad", <<>>) >>) >>,
+  \* 20: five attribute groups out of order, each used
+  << Attr("7"), Attr("0"), Attr("10"), Attr("2"), Attr("1"), Decl("f", <<Ref("a.func", "10"), Ref("a.func", "0")>>),
+     Decl("g", <<Ref("a.func", "7"), Ref("a.func", "2"), Ref("a.func", "1")>>) >>,
   \* 18: the type of a global (address space) read through a use in another global's initialiser
   << GlobalAS("g", <<>>), Global("h", <<Ref("g.cmp", "g")>>), Global("a", <<Ref("g.cmp", "g")>>), Alias("b", <<Ref("g.aliasee", "g")>>) >>
 >>
